@@ -96,11 +96,15 @@ class Injector:
         return False
 
 
-def make_budget():
+SETTINGS = 'year: 2025\ndata_sources:\n  - name: Card\n    file: data/card.csv\n    format: "{date:%m/%d/%Y}, {description}, {amount}"\n'
+SETTINGS_VARIANTS = {'newline_terminated': SETTINGS, 'no_final_newline': SETTINGS.rstrip('\n'), 'ends_with_comment_no_newline': SETTINGS + '# my notes'}
+
+
+def make_budget(settings=SETTINGS):
     b = Budget()
     b.write('data/card.csv', DATA)
     b.write('config/merchant_categories.csv', CSV_RULES)
-    b.write('config/settings.yaml', 'year: 2025\ndata_sources:\n  - name: Card\n    file: data/card.csv\n    format: "{date:%m/%d/%Y}, {description}, {amount}"\n')
+    b.write('config/settings.yaml', settings)
     return b
 
 
@@ -112,15 +116,15 @@ def classification(b, migrate=False):
     return sorted((m['name'], m['category']) for m in doc['merchants'])
 
 
-def check_csv_migration():
-    b0 = make_budget()
+def check_csv_migration(variant='newline_terminated'):
+    b0 = make_budget(SETTINGS_VARIANTS[variant])
     want = classification(b0)
     b0.close()
     k = 0
-    while k < 12:
+    while k < 20:
         progressed = False
         for kind in ('crash_after', 'oserror'):
-            b = make_budget()
+            b = make_budget(SETTINGS_VARIANTS[variant])
             try:
                 csv0 = open(os.path.join(b.config, 'merchant_categories.csv'), 'rb').read()
                 set0 = open(os.path.join(b.config, 'settings.yaml'), 'rb').read()
@@ -133,8 +137,8 @@ def check_csv_migration():
                 if inj.fired is None:
                     continue
                 progressed = True
-                w = {'function': '_migrate_csv_to_rules', 'event': 'crash' if kind == 'crash_after' else 'oserror', 'primitive_index': k, 'primitive': inj.fired}
-                O.case(('csv', k, kind))
+                w = {'function': '_migrate_csv_to_rules', 'settings': variant, 'event': 'crash' if kind == 'crash_after' else 'oserror', 'primitive_index': k, 'primitive': inj.fired}
+                O.case(('csv', variant, k, kind))
                 files = {f: open(os.path.join(b.config, f), 'rb').read() for f in os.listdir(b.config)}
                 if csv0 not in (files.get('merchant_categories.csv'), files.get('merchant_categories.csv.bak')):
                     O.fail('C15.csv_migration.%s.rules_content_lost' % w['event'], w, 'CSV content kept in place or as .bak', sorted(files))
@@ -207,9 +211,10 @@ def main():
         if O.witness.get('function') == 'migrate_v0_to_v1':
             check_layout_migration()
         else:
-            check_csv_migration()
+            check_csv_migration(O.witness.get('settings', 'newline_terminated'))
         O.finish()
-    check_csv_migration()
+    for variant in SETTINGS_VARIANTS:
+        check_csv_migration(variant)
     check_layout_migration()
     O.sample({'function': '_migrate_csv_to_rules', 'event': 'crash', 'primitive_index': 3})
     O.finish()
